@@ -98,7 +98,13 @@ func (o *optionDefinitions) asOptions() []util.Option { //nolint: gocyclo,gocogn
 		case readDelay:
 			floatVal, ok := opt.Value.(float64)
 			if !ok {
-				panic("option readDelay value must be a float")
+				// a whole number of seconds is decoded as an int
+				intVal, intOk := opt.Value.(int)
+				if !intOk {
+					panic("option readDelay value must be a float")
+				}
+
+				floatVal = float64(intVal)
 			}
 
 			opts[i] = options.WithReadDelay(
@@ -107,7 +113,13 @@ func (o *optionDefinitions) asOptions() []util.Option { //nolint: gocyclo,gocogn
 		case timeoutOps:
 			floatVal, ok := opt.Value.(float64)
 			if !ok {
-				panic("option timeoutOps value must be a float")
+				// a whole number of seconds is decoded as an int
+				intVal, intOk := opt.Value.(int)
+				if !intOk {
+					panic("option timeoutOps value must be a float")
+				}
+
+				floatVal = float64(intVal)
 			}
 
 			opts[i] = options.WithTimeoutOps(
